@@ -293,7 +293,7 @@ def check_C15(ctx):
         ("ptr", dict(k="slice", elem=T(fld("X", INT))), "slice", [dict(t="a", n="", f=[["x", "i1"]]), dict(t="a", n="", f=[["x", "s61"]])]),
         ("ptr", dict(k="slice", elem=T(fld("X", INT))), "slice", []),
     ]
-    long_blocks = [dict(t="a", n="n%d" % i, f=[["x", "i%d" % i]] + ([["oops%d" % i, "i1"]] if i == 67 or i >= 128 else [])) for i in range(256)]
+    long_blocks = [dict(t="a", n="n%d" % i, f=([["x", "s78"]] if i >= 128 else [["x", "i%d" % i]]) + ([["oops%d" % i, "i1"]] if i == 67 else [])) for i in range(256)]   # element 67: unknown key; 128..255: type mismatch
     corners.append(("ptr", dict(k="slice", elem=T(fld("Name", STR), fld("X", INT))), "slice", long_blocks))
     corners.append(("ptr", dict(k="slice", elem=T(fld("Name", STR), fld("X", INT))), "slice", long_blocks[:60] + long_blocks[68:100]))
     for i, (mode, ty, bk, blks) in enumerate(corners):
